@@ -1065,14 +1065,25 @@ class Machine:
             bogus = [p_ for p_ in pts if p_ not in set(float(v) for v in x)]
             d["text"] = f"integral_match(fixed_points_in_x with {bogus[0]!r} which is not a sample of x)"
         elif c == "match-fixed-points-too-many":
+            # the other way of designating fixed points may be given as well, validly: the surplus must still be refused
+            both = st.coin(1, 3, "other-designation-too")
+            ok_idx = [int(i) for i in np.searchsorted(x, rx)]
+            ok_pts = [float(v) for v in rx]
             if st.coin(1, 2, "indices"):
                 idx = list(range(n)) + [n - 1] * st.draw(1, 3)
-                d["call"] = lambda wv: wv.integral_match(fixed_points_indices_in_x=idx)
-                d["text"] = f"integral_match(fixed_points_indices_in_x of length {len(idx)} > {n})"
+                kw = {"fixed_points_indices_in_x": idx}
+                if both:
+                    kw["fixed_points_in_x"] = ok_pts
+                d["text"] = f"integral_match(fixed_points_indices_in_x of length {len(idx)} > {n}" + \
+                    (", plus valid fixed_points_in_x)" if both else ")")
             else:
                 pts = [float(v) for v in x] + [float(x[-1])] * st.draw(1, 3)
-                d["call"] = lambda wv: wv.integral_match(fixed_points_in_x=pts)
-                d["text"] = f"integral_match(fixed_points_in_x of length {len(pts)} > {n})"
+                kw = {"fixed_points_in_x": pts}
+                if both:
+                    kw["fixed_points_indices_in_x"] = ok_idx
+                d["text"] = f"integral_match(fixed_points_in_x of length {len(pts)} > {n}" + \
+                    (", plus valid fixed_points_indices_in_x)" if both else ")")
+            d["call"] = lambda wv: wv.integral_match(**kw)
         return d
 
     def inject_invalid(self):
